@@ -68,15 +68,17 @@ def run(prog: Program, col: Collector, tier: str, refs: Optional[Refs] = None, c
         st = a
         while not isinstance(st, ast.stmt):
             st = ti.module.parent.get(st)
-        guard = ti.module.parent.get(st)
-        g_ok = isinstance(guard, ast.If) and st in guard.body and isinstance(guard.test, ast.Compare) and norm(guard.test.left) == clsn and isinstance(guard.test.ops[0], ast.In) \
-            and refs.resolve(guard.test.comparators[0]) == reg
+        from .common import guarding_branch
+        gb = guarding_branch(ti.module, st)
+        guard, gtest, gpos, gbranch = gb if gb else (None, None, None, [])
+        g_ok = gb is not None and isinstance(gtest, ast.Compare) and norm(gtest.left) == clsn and refs.resolve(gtest.comparators[0]) == reg \
+            and ((isinstance(gtest.ops[0], ast.In) and gpos) or (isinstance(gtest.ops[0], ast.NotIn) and not gpos))
         rec = a.args[0] if a.args else None
         rec_ok = isinstance(rec, ast.Tuple) and len(rec.elts) == 3 and norm(rec.elts[1]) == clsn and norm(rec.elts[2]) == argv and isinstance(rec.elts[0], ast.Name)
         res_ok = False
         if rec_ok and g_ok:
             rname = rec.elts[0].id
-            for w in [n for n in guard.body if isinstance(n, ast.With)]:
+            for w in [n for n in gbranch if isinstance(n, ast.With)]:
                 ctx = norm(w.items[0].context_expr)
                 for s in w.body:
                     if isinstance(s, ast.Assign) and norm(s.targets[0]) == rname and isinstance(s.value, ast.Call) and norm(s.value.func) == clsn \
